@@ -226,7 +226,7 @@ def url_cases(tier, seed):
         r = '/'.join(rnd.choice(segs) for _ in range(rnd.randint(1, 5)))
         if rnd.random() < 0.15:
             r = '/' + r
-        if r:
+        if r and not r.startswith('//'):        # `//x` is a network-path reference: urllib's, not the path algorithm
             cases.append(('url', b, r))
     return cases
 
@@ -280,6 +280,17 @@ def rfc_path(base, rel):
                 out.append(inp[:i])
                 inp = inp[i:]
     return ''.join(out)
+
+
+def rfc_line(case):
+    _, b, r = case
+    merged = r if r.startswith('/') else b[:b.rfind('/') + 1] + r
+    return 'rfcpath %s' % lib.enc(merged)
+
+
+def rfc_py(case):
+    _, b, r = case
+    return lib.enc(rfc_path(b, r) or '/')
 
 
 def url_oracle(case, _e=None):
@@ -417,7 +428,8 @@ def gen_cases(tier, seed):
         imps = []
         for h in hs:
             k = rnd.choice(BEHAVIOURS)
-            nested = (rnd.choice(['n.css', '../n.css', 'x/n.css']), rnd.choice(BEHAVIOURS)) if k in LOADS and rnd.random() < 0.5 else None
+            nested = (rnd.choice(['n%d.css', '../n%d.css', 'x/n%d.css']) % len(imps), rnd.choice(BEHAVIOURS)) \
+                if k in LOADS and rnd.random() < 0.5 else None
             imps.append((h, k, nested))
         cases.append(('load', tuple(imps)))
     n_load = len(cases)
@@ -445,12 +457,14 @@ def run(tier, seed):
     res = corr.run('c20o', lcases + fcases, lambda c: 'numval -', lambda c: '~', oracle, chunk=150)
     resE = corr.run('c20e', ecases, enc_line, enc_py, oracle, chunk=40)
     resU = corr.run('c20u', ucases, url_line, url_py, oracle, chunk=400)
+    rcases = [c for c in ucases if '//' not in c[1] and '//' not in c[2]]
+    resR = corr.run('c20r', rcases, rfc_line, rfc_py, None, chunk=400)
     ocases = [('out', k) for k in BEHAVIOURS]
     resO = corr.run('c20f', ocases, out_line, out_py, None, chunk=20, procs=1)
     cyc = out_cyclic()
     cyc_model = lib.run_driver(['fetchout %s cyclic' % MODEL_FIXED])[0]
-    n_mis = resE['n_mismatch'] + resU['n_mismatch'] + resO['n_mismatch'] + (1 if cyc != cyc_model else 0)
-    for name, r in (('encsel', resE), ('urlpath', resU), ('fetchout', resO)):
+    n_mis = resE['n_mismatch'] + resU['n_mismatch'] + resO['n_mismatch'] + resR['n_mismatch'] + (1 if cyc != cyc_model else 0)
+    for name, r in (('encsel', resE), ('urlpath', resU), ('fetchout', resO), ('rfcpath', resR)):
         if r['n_mismatch']:
             c, line, e, g = r['mismatches'][0]
             broken.append('correspondence op `%s` diverges on %d inputs; first %r: impl=%s model=%s' % (
@@ -473,7 +487,7 @@ def run(tier, seed):
                 'enc: the full table override(3) x HTTP(4) x BOM/@charset/none(3) x parent @charset(4); url: 7 bases x 21 '
                 'references + random segment lists against the model and against RFC 3986; flat: resolveImports over all '
                 'sequences of <= 3 imports from {all,print,list} x {loaded, not}; a two-sheet import cycle',
-        'traces_validated_against_impl': resE['n'] + resU['n'] + resO['n'] + 1,
+        'traces_validated_against_impl': resE['n'] + resU['n'] + resO['n'] + resR['n'] + 1,
         'exhaustive': True,
         'distribution': dist,
         'samples': [repr(lcases[i]) for i in (3, len(lcases) // 2, len(lcases) - 1)],
